@@ -301,10 +301,18 @@ func kvAttrs(l []WAttr) []*otlpCommon.KeyValue {
 var junkTags = []string{"", "novalue", "9x:1", "a b:c", "k:v!", "x:y:z", "k:", ":v", "a:b;c", "tag:\xffz", " lead:1", "trail:1 ", "é:ü", "日本:語", "_u:1", "a\\b:c/d", "A.b-c/d:e", "ǅ:1", "٣:1", "k\u00a0:1", "x:١"}
 
 // genProto builds one case: the wire description and the request bodies (first = the described order)
-func genProto(r *rand.Rand, id int) (PCase, []pbody) {
+func unhexPairs2(l [][2]string) [][2]string {
+	out := make([][2]string, len(l))
+	for i, kv := range l {
+		out[i] = [2]string{hx.UnHex(kv[0]), hx.UnHex(kv[1])}
+	}
+	return out
+}
+
+// genProto generates one case: the description of what is sent (Wire); the request bodies are built from the
+// description alone by bodiesOf, so that a case read from a file (corpus, replay) is run exactly like a generated one.
+func genProto(r *rand.Rand, id int) PCase {
 	c := PCase{ID: id}
-	bg := context.Background()
-	var bodies []pbody
 	switch id % 8 {
 	case 0:
 		c.Class = "datadog_logs"
@@ -321,28 +329,7 @@ func genProto(r *rand.Rand, id int) (PCase, []pbody) {
 			}
 		}
 		f := []string{genField(r), genField(r), genField(r), genField(r)}
-		dd := strings.Join(pieces, ",")
-		c.Wire = Wire{Kind: "dd_logs", DdTags: hexs(dd), Fields: []string{hexs(f[0]), hexs(f[1]), hexs(f[2]), hexs(f[3])}}
-		seenR := map[rune]bool{}
-		for _, rn := range dd {
-			if rn >= 128 && !seenR[rn] {
-				seenR[rn] = true
-				lv := int64(0)
-				if unicode.Is(unicode.L, rn) {
-					lv = 1
-				}
-				c.Wire.Letters = append(c.Wire.Letters, [2]int64{int64(rn), lv})
-			}
-		}
-		mk := func(ps []string, shuffle bool) pbody {
-			ms := []string{`"ddsource":` + jsonStr(f[0]), `"service":` + jsonStr(f[1]), `"hostname":` + jsonStr(f[2]), `"source_type":` + jsonStr(f[3]),
-				`"ddtags":` + jsonBytes(strings.Join(ps, ",")), `"message":"m"`, `"timestamp":1704888000000`}
-			if shuffle {
-				ms = shuffledS(r, ms)
-			}
-			return pbody{unmarshal.UnmarshallDatadogV2JSONV2, bg, []byte("[" + obj(ms) + "]")}
-		}
-		bodies = []pbody{mk(pieces, false), mk(shuffledS(r, pieces), true), mk(shuffledS(r, pieces), true)}
+		c.Wire = Wire{Kind: "dd_logs", DdTags: hexs(strings.Join(pieces, ",")), Fields: []string{hexs(f[0]), hexs(f[1]), hexs(f[2]), hexs(f[3])}}
 	case 1:
 		c.Class = "datadog_cf"
 		f := make([]string, 8)
@@ -355,22 +342,9 @@ func genProto(r *rand.Rand, id int) (PCase, []pbody) {
 			hf[i] = hexs(f[i])
 		}
 		c.Wire = Wire{Kind: "dd_cf", Fields: hf}
-		ctx := context.WithValue(bg, "ddsource", f[0])
-		mk := func(shuffle bool) pbody {
-			ms := []string{`"ScriptName":` + jsonStr(f[1]), `"Outcome":` + jsonStr(f[2]), `"EventType":` + jsonStr(f[3]),
-				`"ActionType":` + jsonStr(f[5]), `"ActorType":` + jsonStr(f[6]), `"ResourceType":` + jsonStr(f[7]), `"EventTimestampMs":1704888000000`}
-			if f[4] != "" {
-				ms = append(ms, `"ActionResult":`+f[4])
-			}
-			if shuffle {
-				ms = shuffledS(r, ms)
-			}
-			return pbody{unmarshal.UnmarshallDatadogCFJSONV2, ctx, []byte(obj(ms) + "\n")}
-		}
-		bodies = []pbody{mk(false), mk(true), mk(true)}
 	case 2:
 		c.Class = "datadog_metrics"
-		var objs [][][2]string
+		var hobjs [][][2]string
 		no := r.Intn(3)
 		for i := 0; i < no; i++ {
 			var o [][2]string
@@ -378,49 +352,20 @@ func genProto(r *rand.Rand, id int) (PCase, []pbody) {
 			for j := 0; j < nk; j++ {
 				o = append(o, [2]string{[]string{"name", "type", "host-id", "café"}[(i+j)%4] + strconv.Itoa(j), genField(r)})
 			}
-			objs = append(objs, o)
-		}
-		metric := []string{"cpu", "system.load.1", "mem-used", ""}[r.Intn(4)]
-		resFirst := r.Intn(2) == 0
-		var hobjs [][][2]string
-		for _, o := range objs {
 			hobjs = append(hobjs, hexPairs2(o))
 		}
+		metric := []string{"cpu", "system.load.1", "mem-used", ""}[r.Intn(4)]
 		items := []WItem{{Metric: hexs(metric)}, {Objs: hobjs, IsRes: true}}
-		if resFirst {
+		if r.Intn(2) == 0 {
 			items[0], items[1] = items[1], items[0]
 		}
 		c.Wire = Wire{Kind: "dd_metrics", Items: items}
-		var os []string
-		for _, o := range objs {
-			var ms []string
-			for _, kv := range o {
-				ms = append(ms, jsonStr(kv[0])+":"+jsonStr(kv[1]))
-			}
-			os = append(os, obj(ms))
-		}
-		mMetric := `"metric":` + jsonStr(metric)
-		mRes := `"resources":[` + strings.Join(os, ",") + `]`
-		mPts := `"points":[{"timestamp":1704888000,"value":1.5}]`
-		mk := func(ms []string) pbody {
-			return pbody{unmarshal.UnmarshallDatadogMetricsV2JSONV2, bg, []byte(`{"series":[` + obj(ms) + `]}`)}
-		}
-		first := []string{mMetric, mRes, mPts}
-		if resFirst {
-			first = []string{mRes, mPts, mMetric}
-		}
-		bodies = []pbody{mk(first), mk([]string{mPts, mRes, mMetric}), mk([]string{mMetric, mPts, mRes})}
 	case 3:
 		c.Class = "elastic_doc"
 		target := []string{"logs", "my-index", "café", "idx.2024"}[r.Intn(4)]
 		hasID := r.Intn(2) == 0
 		id := []string{"7", "doc-1", "a b"}[r.Intn(3)]
 		c.Wire = Wire{Kind: "es_doc", Fields: []string{hexs(target), hexs(id)}, HasID: hasID}
-		ctx := context.WithValue(bg, "target", target)
-		if hasID {
-			ctx = context.WithValue(ctx, "id", id)
-		}
-		bodies = []pbody{{unmarshal.ElasticDocUnmarshalV2, ctx, []byte(`{"message":"hello"}`)}}
 	case 4:
 		c.Class = "elastic_bulk"
 		target := []string{"", "logs", "my-index"}[r.Intn(3)]
@@ -431,15 +376,6 @@ func genProto(r *rand.Rand, id int) (PCase, []pbody) {
 			ms = append(ms, [2]string{names[i], genField(r)})
 		}
 		c.Wire = Wire{Kind: "es_bulk", Fields: []string{hexs(target)}, Tags: hexPairs2(ms)}
-		ctx := context.WithValue(bg, "target", target)
-		mk := func(m [][2]string) pbody {
-			var parts []string
-			for _, kv := range m {
-				parts = append(parts, jsonStr(kv[0])+":"+jsonStr(kv[1]))
-			}
-			return pbody{unmarshal.ElasticBulkUnmarshalV2, ctx, []byte(`{"create":` + obj(parts) + "}\n" + `{"message":"hello"}` + "\n")}
-		}
-		bodies = []pbody{mk(ms), mk(shuffled2(r, ms)), mk(shuffled2(r, ms))}
 	case 5:
 		c.Class = "otlp_logs"
 		gen := func(n int, off int) []WAttr {
@@ -459,24 +395,6 @@ func genProto(r *rand.Rand, id int) (PCase, []pbody) {
 		}
 		sev := []string{"", "WARN", "info"}[r.Intn(3)]
 		c.Wire = Wire{Kind: "otlp", Res: res, Scope: scope, Rec: rec, Sev: hexs(sev)}
-		mk := func() pbody {
-			ld := &otlpLogs.LogsData{ResourceLogs: []*otlpLogs.ResourceLogs{{
-				Resource: &otlpResource.Resource{Attributes: kvAttrs(res)},
-				ScopeLogs: []*otlpLogs.ScopeLogs{{
-					Scope: &otlpCommon.InstrumentationScope{Attributes: kvAttrs(scope)},
-					LogRecords: []*otlpLogs.LogRecord{{TimeUnixNano: 1704888000000000000, SeverityText: sev,
-						Body:       &otlpCommon.AnyValue{Value: &otlpCommon.AnyValue_StringValue{StringValue: "m"}},
-						Attributes: kvAttrs(rec)}},
-				}},
-			}}}
-			b, err := proto.Marshal(ld)
-			if err != nil {
-				panic(err)
-			}
-			return pbody{unmarshal.UnmarshalOTLPLogsV2, bg, b}
-		}
-		// the Go map decides the order anew on every run
-		bodies = []pbody{mk(), mk(), mk(), mk()}
 	case 7:
 		// a Loki push whose stream carries the control label __ttl_days__, without and with a TTL header (X-Ttl-Days)
 		c.Class = "loki_ttl_label"
@@ -495,15 +413,6 @@ func genProto(r *rand.Rand, id int) (PCase, []pbody) {
 		}
 		ls = shuffled2(r, ls)
 		c.Wire = Wire{Kind: "loki_ttl", Tags: hexPairs2(ls)}
-		mk := func(l [][2]string) []byte {
-			var m []string
-			for _, kv := range l {
-				m = append(m, jsonStr(kv[0])+":"+jsonStr(kv[1]))
-			}
-			return []byte(`{"streams":[{"stream":{` + strings.Join(m, ",") + `},"values":[["1704888000000000000","x"]]}]}`)
-		}
-		bodies = []pbody{{unmarshal.DecodePushRequestStringV2, bg, mk(ls)}, {unmarshal.DecodePushRequestStringV2, bg, mk(shuffled2(r, ls))}}
-		c.hdr = &pbody{unmarshal.DecodePushRequestStringV2, context.WithValue(bg, "TTL_DAYS", uint16(7)), mk(ls)}
 	default:
 		c.Class = "influx_metric"
 		var tags [][2]string
@@ -514,18 +423,152 @@ func genProto(r *rand.Rand, id int) (PCase, []pbody) {
 		meas := []string{"cpu", "disk-io", "m1"}[r.Intn(3)]
 		field := []string{"value", "load-1", "9th", "used_percent"}[r.Intn(4)]
 		c.Wire = Wire{Kind: "influx_metric", Tags: hexPairs2(tags), Fields: []string{hexs(meas), hexs(field)}}
+	}
+	return c
+}
+
+// bodiesOf builds the request bodies of a case from its description: first the described order, then the same content
+// in other wire orders; it also fills what is derived from the description (the \p{L} table of a ddtags text, the
+// request with a TTL header).
+func bodiesOf(r *rand.Rand, c *PCase) []pbody {
+	bg := context.Background()
+	w := &c.Wire
+	fld := make([]string, len(w.Fields))
+	for i, h := range w.Fields {
+		fld[i] = hx.UnHex(h)
+	}
+	switch w.Kind {
+	case "dd_logs":
+		dd := hx.UnHex(w.DdTags)
+		w.Letters = nil
+		seenR := map[rune]bool{}
+		for _, rn := range dd {
+			if rn >= 128 && !seenR[rn] {
+				seenR[rn] = true
+				lv := int64(0)
+				if unicode.Is(unicode.L, rn) {
+					lv = 1
+				}
+				w.Letters = append(w.Letters, [2]int64{int64(rn), lv})
+			}
+		}
+		var pieces []string
+		if dd != "" {
+			pieces = strings.Split(dd, ",")
+		}
+		mk := func(ps []string, shuffle bool) pbody {
+			ms := []string{`"ddsource":` + jsonStr(fld[0]), `"service":` + jsonStr(fld[1]), `"hostname":` + jsonStr(fld[2]), `"source_type":` + jsonStr(fld[3]),
+				`"ddtags":` + jsonBytes(strings.Join(ps, ",")), `"message":"m"`, `"timestamp":1704888000000`}
+			if shuffle {
+				ms = shuffledS(r, ms)
+			}
+			return pbody{unmarshal.UnmarshallDatadogV2JSONV2, bg, []byte("[" + obj(ms) + "]")}
+		}
+		return []pbody{mk(pieces, false), mk(shuffledS(r, pieces), true), mk(shuffledS(r, pieces), true)}
+	case "dd_cf":
+		ctx := context.WithValue(bg, "ddsource", fld[0])
+		mk := func(shuffle bool) pbody {
+			ms := []string{`"ScriptName":` + jsonStr(fld[1]), `"Outcome":` + jsonStr(fld[2]), `"EventType":` + jsonStr(fld[3]),
+				`"ActionType":` + jsonStr(fld[5]), `"ActorType":` + jsonStr(fld[6]), `"ResourceType":` + jsonStr(fld[7]), `"EventTimestampMs":1704888000000`}
+			if fld[4] != "" {
+				ms = append(ms, `"ActionResult":`+fld[4])
+			}
+			if shuffle {
+				ms = shuffledS(r, ms)
+			}
+			return pbody{unmarshal.UnmarshallDatadogCFJSONV2, ctx, []byte(obj(ms) + "\n")}
+		}
+		return []pbody{mk(false), mk(true), mk(true)}
+	case "dd_metrics":
+		metric := ""
+		resFirst := len(w.Items) > 0 && w.Items[0].IsRes
+		var os []string
+		for _, it := range w.Items {
+			if !it.IsRes {
+				metric = hx.UnHex(it.Metric)
+				continue
+			}
+			for _, o := range it.Objs {
+				var ms []string
+				for _, kv := range unhexPairs2(o) {
+					ms = append(ms, jsonStr(kv[0])+":"+jsonStr(kv[1]))
+				}
+				os = append(os, obj(ms))
+			}
+		}
+		mMetric := `"metric":` + jsonStr(metric)
+		mRes := `"resources":[` + strings.Join(os, ",") + `]`
+		mPts := `"points":[{"timestamp":1704888000,"value":1.5}]`
+		mk := func(ms []string) pbody {
+			return pbody{unmarshal.UnmarshallDatadogMetricsV2JSONV2, bg, []byte(`{"series":[` + obj(ms) + `]}`)}
+		}
+		first := []string{mMetric, mRes, mPts}
+		if resFirst {
+			first = []string{mRes, mPts, mMetric}
+		}
+		return []pbody{mk(first), mk([]string{mPts, mRes, mMetric}), mk([]string{mMetric, mPts, mRes})}
+	case "es_doc":
+		ctx := context.WithValue(bg, "target", fld[0])
+		if w.HasID {
+			ctx = context.WithValue(ctx, "id", fld[1])
+		}
+		return []pbody{{unmarshal.ElasticDocUnmarshalV2, ctx, []byte(`{"message":"hello"}`)}}
+	case "es_bulk":
+		ms := unhexPairs2(w.Tags)
+		ctx := context.WithValue(bg, "target", fld[0])
+		mk := func(m [][2]string) pbody {
+			var parts []string
+			for _, kv := range m {
+				parts = append(parts, jsonStr(kv[0])+":"+jsonStr(kv[1]))
+			}
+			return pbody{unmarshal.ElasticBulkUnmarshalV2, ctx, []byte(`{"create":` + obj(parts) + "}\n" + `{"message":"hello"}` + "\n")}
+		}
+		return []pbody{mk(ms), mk(shuffled2(r, ms)), mk(shuffled2(r, ms))}
+	case "otlp":
+		sev := hx.UnHex(w.Sev)
+		mk := func() pbody {
+			ld := &otlpLogs.LogsData{ResourceLogs: []*otlpLogs.ResourceLogs{{
+				Resource: &otlpResource.Resource{Attributes: kvAttrs(w.Res)},
+				ScopeLogs: []*otlpLogs.ScopeLogs{{
+					Scope: &otlpCommon.InstrumentationScope{Attributes: kvAttrs(w.Scope)},
+					LogRecords: []*otlpLogs.LogRecord{{TimeUnixNano: 1704888000000000000, SeverityText: sev,
+						Body:       &otlpCommon.AnyValue{Value: &otlpCommon.AnyValue_StringValue{StringValue: "m"}},
+						Attributes: kvAttrs(w.Rec)}},
+				}},
+			}}}
+			b, err := proto.Marshal(ld)
+			if err != nil {
+				panic(err)
+			}
+			return pbody{unmarshal.UnmarshalOTLPLogsV2, bg, b}
+		}
+		// the Go map decides the order anew on every run
+		return []pbody{mk(), mk(), mk(), mk()}
+	case "loki_ttl":
+		ls := unhexPairs2(w.Tags)
+		mk := func(l [][2]string) []byte {
+			var m []string
+			for _, kv := range l {
+				m = append(m, jsonStr(kv[0])+":"+jsonStr(kv[1]))
+			}
+			return []byte(`{"streams":[{"stream":{` + strings.Join(m, ",") + `},"values":[["1704888000000000000","x"]]}]}`)
+		}
+		c.hdr = &pbody{unmarshal.DecodePushRequestStringV2, context.WithValue(bg, "TTL_DAYS", uint16(7)), mk(ls)}
+		return []pbody{{unmarshal.DecodePushRequestStringV2, bg, mk(ls)}, {unmarshal.DecodePushRequestStringV2, bg, mk(shuffled2(r, ls))}}
+	case "influx_metric":
+		tags := unhexPairs2(w.Tags)
 		ctx := context.WithValue(bg, "precision", time.Nanosecond)
 		mk := func(tg [][2]string) pbody {
-			line := meas
+			line := fld[0]
 			for _, kv := range tg {
 				line += "," + kv[0] + "=" + kv[1]
 			}
-			line += " " + field + "=1.5 1704888000000000000\n"
+			line += " " + fld[1] + "=1.5 1704888000000000000\n"
 			return pbody{unmarshal.UnmarshalInfluxDBLogsV2, ctx, []byte(line)}
 		}
-		bodies = []pbody{mk(tags), mk(shuffled2(r, tags)), mk(shuffled2(r, tags))}
+		return []pbody{mk(tags), mk(shuffled2(r, tags)), mk(shuffled2(r, tags))}
 	}
-	return c, bodies
+	panic("unknown wire kind " + w.Kind)
 }
 
 func observeProto(c *PCase, bodies []pbody) {
@@ -657,13 +700,23 @@ func observeProto(c *PCase, bodies []pbody) {
 }
 
 func runProtos(f *hx.Flags, out *hx.Out) {
-	if f.Cases != "" {
-		panic("--mode protos regenerates its cases from the seed; use --seed/--n")
-	}
 	rnd := hx.Rand(f.Seed)
+	if f.Cases != "" {
+		// explicit cases (corpus, replay): only the description of what is sent is read
+		hx.ReadLines(f.Cases, func(b []byte) {
+			var in PCase
+			if err := json.Unmarshal(b, &in); err != nil {
+				panic(err)
+			}
+			c := PCase{ID: in.ID, Class: in.Class, Wire: in.Wire}
+			observeProto(&c, bodiesOf(rnd, &c))
+			out.Put(c)
+		})
+		return
+	}
 	for i := 0; i < f.N; i++ {
-		c, bodies := genProto(rnd, i)
-		observeProto(&c, bodies)
+		c := genProto(rnd, i)
+		observeProto(&c, bodiesOf(rnd, &c))
 		out.Put(c)
 	}
 }
